@@ -923,8 +923,168 @@ def run(spec, R):
                 for i, (cls, m) in enumerate(href_graphs(data)):
                     process(R, T, m, drivers[i % len(drivers)], cls, repro)
                     R.count('href_graphs_sent')
+    any_kinds(R, spec, rng)
     if len(R.samples) < 2:
         R.sample({'kind': kind, 'validator': validator, 'inputs': R.counters.get('inputs_processed'), 'fault_codes_seen': R.counters.get('fault_codes', [])[:12]})
+
+
+HOSTILE_ANY = ['<?xml version="1.0" encoding="utf-8"?><a/>', '<?xml version="1.0" encoding="latin-1"?><a>\xe9</a>', '<?xml version="1.0"?><a/>',
+               "<!DOCTYPE x [<!ENTITY a 'E'>]><x>&a;</x>", '<!DOCTYPE x SYSTEM "file:///etc/hostname"><x/>', '<a>', '<a></b>', '<a/><b/>', 'text', '', ' ',
+               '<a xmlns:p="urn:p"><p:b/><q:c/></a>', '<' + 'a>' * 3000, '<a>' * 300 + '</a>' * 300, '<a b="1" b="2"/>', '<a>&#0;</a>', '<a>&#xD800;</a>',
+               '<html><body><p>unclosed', '<script>alert(1)</script>', '\x00<a/>', '<a/>\x00', '<!-- c -->', '<?pi?>', '<![CDATA[x]]>',
+               1e30, -1e30, 1e308 * 10, -1e308 * 10, 10 ** 30, -10 ** 30, 2 ** 63, 1.5, 0, -1, True, None, [], {}, [1, 2], {'a': {'b': [None]}}, [[[]]],
+               '1e30', '99999999999999999999', '-99999999999999999999', '1600000000', '1600000000.5', '253402300800', '-62135596801', '1e18', 'inf', '-inf',
+               '0001-01-01T00:00:00+14:00', '9999-12-31T23:59:59-14:00', '0001-01-01T00:00:00-00:01', '9999-12-31T23:59:59.999999+00:01']
+
+
+class AnyTarget(object):
+    """a hand-built application for what the generated universes do not hold: AnyXml, AnyHtml, AnyDict and Any members, an AnyXml attribute,
+    DateTime members that travel as numbers (serialize_as) or are moved to a time zone (as_timezone), custom date/time formats"""
+
+    def __init__(self, kind, validator, outkind=None):
+        import pytz
+        from spyne import Application, Service, rpc, ComplexModel, AnyXml, AnyHtml, AnyDict, Any, DateTime, Date, Time, Unicode, Integer, Array
+        from spyne.model.complex import XmlAttribute
+        from spyne.server import ServerBase
+        from spyne.server.wsgi import WsgiApplication
+        self.kind, self.outkind, self.ir = kind, outkind or kind, None
+        T = self
+
+        class _B(object):
+            calls = []
+        self.B = _B()
+        self.B.calls = []
+        self.B.returns = {}
+        ns = 'urn:vf:c10any'
+        xmlish = kind in ('xml', 'soap11', 'soap12')
+        members = dict(x=AnyXml, h=AnyHtml, d=AnyDict, a=Any, ts=DateTime(serialize_as='sec'), tf=DateTime(serialize_as='sec_float'),
+                       tm=DateTime(serialize_as='msec'), tu=DateTime(serialize_as='usec'), tz=DateTime(as_timezone=pytz.utc),
+                       df=Date(date_format='%d.%m.%Y'), dt=DateTime(dt_format='%Y%m%dT%H%M%S'), xs=Array(AnyXml), ds=Array(AnyDict))
+        if xmlish and validator != 'lxml':
+            members['ax'] = XmlAttribute(AnyXml)          # (has no valid schema: not with the lxml validator)
+        AK = type('AK', (ComplexModel,), dict(members, __namespace__=ns))
+
+        class AnySvc(Service):
+            @rpc(AK, AnyXml, AnyDict, _returns=Unicode)
+            def sink(ctx, k, x, d):
+                T.B.calls.append(('sink', ()))
+                return 'ok'
+
+            @rpc(AnyXml, _body_style='bare', _returns=Unicode)
+            def bare_xml(ctx, x):
+                T.B.calls.append(('bare_xml', ()))
+                return 'ok'
+
+            @rpc(AnyDict, _body_style='bare', _returns=Unicode)
+            def bare_dict(ctx, d):
+                T.B.calls.append(('bare_dict', ()))
+                return 'ok'
+        if xmlish:
+            inp = c01.make_protocols(kind, validator)[0]
+        elif kind == 'httprpc':
+            from spyne.protocol.http import HttpRpc
+            inp = HttpRpc(validator=validator)
+        else:
+            self.conf = refdict.Conf(kind, True, 'dict', False)
+            inp = c02.make_protocols(self.conf, validator)[0]
+            self.codec = refdict.Codec({'types': [], 'services': [], 'tns': ns, 'uid': 9400}, self.conf)
+        outp = M.make_protocols(outkind or ('json' if kind == 'httprpc' else kind), None)[1]
+        app = Application([AnySvc], ns, name='AnyKinds', in_protocol=inp, out_protocol=outp)
+        self.server = None if kind == 'httprpc' else ServerBase(app)
+        self.wsgi = WsgiApplication(app)
+        self.ns = ns
+
+    small = Target.small
+    fault_of = Target.fault_of
+    fault_of_out = _fault_of_out
+
+    def requests(self):
+        """[(bytes or (path, pairs), structure)]: valid requests written by hand"""
+        kind, ns = self.kind, self.ns
+        k = {'x': '<a><b>1</b></a>', 'h': '<p>hi</p>', 'd': {'q': [1, {'r': 's'}]}, 'a': {'any': ['thing', 1]}, 'ts': 1600000000, 'tf': 1600000000.25,
+             'tm': 1600000000000, 'tu': 1600000000000000, 'tz': '2020-01-01T00:00:00+02:00', 'df': '31.12.2020', 'dt': '20201231T235959',
+             'xs': ['<i/>', '<j>2</j>'], 'ds': [{'u': 1}]}
+        if kind in ('xml', 'soap11', 'soap12'):
+            body = ('<t:sink xmlns:t="%s"><t:k ax="&lt;z&gt;1&lt;/z&gt;"><t:x><a><b>1</b></a></t:x><t:h><p>hi</p></t:h><t:d><q>1</q><q><r>s</r></q></t:d>'
+                    '<t:a><any>thing</any></t:a><t:ts>1600000000</t:ts><t:tf>1600000000.25</t:tf><t:tm>1600000000000</t:tm><t:tu>1600000000000000</t:tu>'
+                    '<t:tz>2020-01-01T00:00:00+02:00</t:tz><t:df>31.12.2020</t:df><t:dt>20201231T235959</t:dt><t:xs><t:anyType><i/></t:anyType></t:xs>'
+                    '<t:ds><t:anyType><u>1</u></t:anyType></t:ds></t:k><t:x><b/></t:x><t:d><w>1</w></t:d></t:sink>' % ns)
+            if 'ax=' in body and not hasattr(self, 'conf') and self.wsgi.app.in_protocol.validator is not None and False:
+                pass
+            from lxml import etree as _et
+            out = []
+            for b in (body, '<t:bare_xml xmlns:t="%s"><a><b>1</b></a></t:bare_xml>' % ns, '<t:bare_dict xmlns:t="%s"><q>1</q></t:bare_dict>' % ns):
+                if self.wsgi.app.in_protocol.validator is not None and 'ax=' in b and getattr(self.wsgi.app.in_protocol.validator, '__name__', '') == 'x':
+                    continue
+                el = _et.fromstring(b)
+                if 'ax' not in [f for f in self.wsgi.app.interface.classes['{%s}AK' % ns]._type_info]:
+                    for e in el.iter():
+                        e.attrib.pop('ax', None)
+                if kind != 'xml':
+                    env = _et.Element('{%s}Envelope' % (M.S11 if kind == 'soap11' else M.S12))
+                    _et.SubElement(env, '{%s}Body' % (M.S11 if kind == 'soap11' else M.S12)).append(el)
+                    el = env
+                out.append((_et.tostring(el), el))
+            return out
+        if kind == 'httprpc':
+            pairs = [('k.x', k['x']), ('k.h', k['h']), ('k.ts', '1600000000'), ('k.tf', '1600000000.25'), ('k.tm', '1600000000000'), ('k.tu', '1600000000000000'),
+                     ('k.tz', k['tz']), ('k.df', k['df']), ('k.dt', k['dt']), ('k.xs[0]', '<i/>'), ('x', '<b/>')]
+            return [(('/sink', pairs), pairs)]
+        docs = [{'sink': {'k': k, 'x': '<b/>', 'd': {'w': 1}}}, {'bare_xml': '<a><b>1</b></a>'}, {'bare_dict': {'q': [1]}}]
+        if kind == 'msgpackrpc':
+            docs = [[0, 1, 'sink', [k, '<b/>', {'w': 1}]]]
+        return [(self.codec.dumps(d), d) for d in docs]
+
+
+def any_kinds(R, spec, rng):
+    global HOSTILE
+    kind, validator, tier = spec['kind'], spec['validator'], spec['tier']
+    try:
+        T = AnyTarget(kind, validator, spec.get('out'))
+    except Exception as e:
+        R.skip('any-kinds application rejected at construction: %s' % type(e).__name__)
+        if len(R.notes) < 6:
+            R.notes.append('any-kinds application (%s, %s): %r' % (kind, validator, e))
+        return
+    repro = {'seed': spec['seed'], 'uid': 9400, 'kind': kind, 'validator': validator, 'out': spec.get('out')}
+    drivers = ('wsgi',) if kind == 'httprpc' else ('server', 'wsgi')
+    saved = HOSTILE
+    HOSTILE = saved + [h for h in HOSTILE_ANY if isinstance(h, str)]
+    try:
+        for data, struct in T.requests():
+            if kind == 'httprpc':
+                path, pairs = data
+                process(R, T, b'', 'wsgi', 'valid', repro, path=path, qs=refflat.query_string(pairs))
+            else:
+                for d in drivers:
+                    process(R, T, data, d, 'valid', repro)
+            leaf_sweep(R, T, rng, data, struct, repro, 'thorough', drivers)
+            R.count('any_kinds_requests')
+            if kind not in ('xml', 'soap11', 'soap12', 'httprpc'):
+                # values that are not text: numbers of every size, containers, nulls at every leaf
+                from checks.c04 import positions, set_path
+                (mkey, body), = struct.items() if isinstance(struct, dict) else ((None, struct),)
+                n = 0
+                for pth in positions(body):
+                    if not pth:
+                        continue
+                    for lit in HOSTILE_ANY:
+                        if isinstance(lit, str):
+                            continue
+                        try:
+                            blob = T.codec.dumps({mkey: set_path(body, pth, lit)} if mkey is not None else set_path(body, pth, lit))
+                        except Exception:
+                            continue
+                        process(R, T, blob, drivers[n % len(drivers)], 'sweep:any_value', repro)
+                        n += 1
+                R.count('any_kinds_value_inputs', n)
+                for i, (cls, m) in enumerate(dict_mutants(rng, T.codec, struct, 40 if tier == 'quick' else 300)):
+                    process(R, T, m, drivers[i % len(drivers)], cls, repro)
+            elif kind != 'httprpc':
+                for i, (cls, m) in enumerate(xml_mutants(rng, struct, 40 if tier == 'quick' else 300)):
+                    process(R, T, m, drivers[i % len(drivers)], cls, repro)
+    finally:
+        HOSTILE = saved
 
 
 def replay(v, R):
